@@ -25,11 +25,13 @@ def gtag(cfg):
         t = "g%d" % g
     if cfg.get("ignore"):
         t += "+ignore"
+    if cfg.get("prelude"):
+        t += "+after:" + ",".join(cfg["prelude"])
     return t
 
 
 def cfg_json(cfg):
-    c = {k: v for k, v in cfg.items() if k in ("n", "r", "guard", "ignore", "track_all")}
+    c = {k: v for k, v in cfg.items() if k in ("n", "r", "guard", "ignore", "track_all", "prelude")}
     if isinstance(c.get("guard"), tuple):
         c["guard"] = list(c["guard"])
     return c
